@@ -142,19 +142,32 @@ def _check_removal(ctx, func, graph, site, var):
                        'identity cleared (%s.identity = None) before the '
                        'removal' % var)
                 return
-    # exemption (b): deferred restore map written before the removal and
-    # consulted by a test that guards a later restore
+    # exemption (b): the victim / its server is recorded before the removal
+    # in a local (map entry or variable) that guards a later restore
     for node in dom.get(site, ()):
         if node.kind != 'stmt' or not isinstance(node.ast, ast.Assign):
             continue
         for tgt in node.ast.targets:
-            if isinstance(tgt, ast.Subscript) and \
-                    isinstance(tgt.value, ast.Name):
-                dname = tgt.value.id
+            base = tgt
+            while isinstance(base, ast.Subscript):
+                base = base.value
+            if isinstance(base, ast.Name) and isinstance(
+                    tgt, (ast.Subscript, ast.Name)):
+                dname = base.id
+                if dname in (var,):
+                    continue
+                rcv = [K.recv_text(c) for c in C.node_calls(site)
+                       if K.is_meth(c, 'remove')]
+                about_victim = var in N.mentions(node.ast.value) or (
+                    isinstance(tgt, ast.Subscript) and
+                    var in N.mentions(tgt.slice)) or \
+                    N.txt(node.ast.value) in rcv
+                if not about_victim:
+                    continue
                 if _guards_restore(graph, dname):
                     ctx.ok('C05.2', func, site,
-                           'victim recorded in deferred-restore map %r '
-                           'before the removal' % dname)
+                           'victim recorded in the deferred-restore '
+                           'structure %r before the removal' % dname)
                     return
     ctx.fail('C05.2', func, site,
              'a path after the removal of %s reaches the end of its scope '
@@ -162,13 +175,13 @@ def _check_removal(ctx, func, graph, site, var):
 
 
 def _guards_restore(graph, dname):
-    """A test mentioning dict ``dname`` guards (reaches, on its true edge) a
-    .restore( call."""
+    """A test mentioning local ``dname`` guards (reaches, on one of its
+    edges) a .restore( call."""
     for node in graph.nodes:
         if node.kind != 'test' or dname not in N.mentions(node.ast):
             continue
         for edge in node.succ:
-            if edge.kind != 'true':
+            if edge.kind not in ('true', 'false'):
                 continue
             for sub in C.reach([edge.dst], edge_ok=C.no_exc):
                 for call in C.node_calls(sub):
